@@ -8,7 +8,7 @@ from typing_extensions import override
 from .decodestate import DecodeState
 from .diagcodedtype import DctType, DiagCodedType
 from .encodestate import EncodeState
-from .exceptions import EncodeError, odxraise, odxrequire
+from .exceptions import DecodeError, EncodeError, odxraise, odxrequire
 from .odxlink import OdxDocFragment, OdxLinkDatabase, OdxLinkId, OdxLinkRef
 from .odxtypes import AtomicOdxType, DataType
 from .snrefcontext import SnRefContext
@@ -111,6 +111,11 @@ class ParamLengthInfoType(DiagCodedType):
         bit_length = decode_state.length_keys[self.length_key.short_name]
         if not isinstance(bit_length, int):
             odxraise(f"The bit length must be an integer, is {type(bit_length)}")
+            bit_length = 0
+        elif bit_length < 0:
+            odxraise(
+                f"The length key {self.length_key.short_name} specifies the "
+                f"negative bit length {bit_length}", DecodeError)
             bit_length = 0
 
         # Extract the internal value and return.
